@@ -23,3 +23,35 @@ package codescan
 //@ pure
 //@ ensures result == vs_any(func(i int) bool { return 1 <= i && i < len(t) && t[i] == option })
 //@ loop 1 invariant 1 <= i && vs_all(func(j int) bool { return 1 <= j && j < i && j < len(t) ==> t[j] != option })
+
+//@ func removeYamlIndent
+//@ props C17
+//@ safety
+//@ ensures len(result) <= len(spec)
+//@ loop 1 invariant len(loc) == 0
+//@ loop 2 invariant len(s) <= vs_done(2)
+
+//@ func removeIndent
+//@ props C17
+//@ safety
+//@ ensures len(result) == len(spec)
+
+//@ func cleanupScannerLines
+//@ props C17
+//@ safety
+//@ requires yamlBlock == nil
+//@ ensures len(result) <= len(lines)
+//@ loop 1 invariant len(uncommented) == vs_done(1) && -1 <= seenLine && seenLine < vs_done(1) && 0 <= lastContent && lastContent <= vs_done(1) && !startBlock
+//@ loop 1 invariant seenLine >= 0 ==> seenLine <= lastContent && lastContent < vs_done(1)
+
+//@ func collectScannerTitleDescription
+//@ props C17
+//@ safety
+
+//@ func joinDropLast
+//@ props C17
+//@ safety
+
+//@ func removeEmptyLines
+//@ props C17
+//@ safety
